@@ -138,6 +138,18 @@ class Scenario:
                 return False
             nw.deliver(s1.fs, d1, run=False)
             nw.deliver(s2.fs, d2)
+        elif kind == "mt":
+            # ("mt", c, name, n): the message reaches the node's socket in the very instant in which n further seconds have passed:
+            # the I/O thread finds the socket readable and its timers due in the same pass (and, for a message larger than one
+            # recv(), in several consecutive passes)
+            s = self.sock(ev[1])
+            if s is None or (s.fs.connecting and (not s.fs.conn_done or s.fs.so_error)) or getattr(s, "frags", None):
+                return False
+            d = self.message(s, ev[2])
+            if d is None:
+                return False
+            nw.deliver(s.fs, d, run=False)
+            nw.tick(ev[3])
         elif kind == "xn":
             # ("xn", c1, name1, n, c2, name2): connection c1 receives n messages in one segment and connection c2 one message in the
             # same instant - the node has n answers to write (n wake-up requests from c1's writer) next to whatever c2's message causes
